@@ -132,6 +132,9 @@ func Pipe() (Conn, Conn) {
 	return a, b
 }
 
+// Name returns the diagnostic name of this end.
+func (c *MemConn) Name() string { return c.name }
+
 // Peer returns the other end of the connection.
 func (c *MemConn) Peer() *MemConn { return c.peer }
 
